@@ -101,25 +101,35 @@ def pools(ctx, count):
 
 def sibling(rng, g):
     """a well-formed game that differs from g by a small regrouping: the last transition of a player state moves to the
-    front of the next state when that one belongs to the same player (the flattened list of transitions is unchanged);
-    otherwise two same-owner rows are exchanged. A cache or memo keyed on too little would confuse the two."""
+    front of the next state when that one belongs to the same player and the moved transition still leads strictly
+    forward (so no cycle is created and the reward loop still terminates); the flattened list of transitions is
+    unchanged. A cache or memo keyed on too little would confuse the two."""
     g2 = copy.deepcopy(g)
     n = len(g2["players"])
     cand = [s for s in range(n - 1) if g2["players"][s] == g2["players"][s + 1] and g2["players"][s] != PR
             and len(g2["transition_list"][s]) >= 2
+            and g2["transition_list"][s][-1][1] > s + 1
+            and all(d > s for _, d in g2["transition_list"][s]) and all(d > s + 1 for _, d in g2["transition_list"][s + 1])
             and g2["transition_list"][s][-1][0] not in [a for a, _ in g2["transition_list"][s + 1]]]
-    if cand:
-        s = rng.choice(cand)
-        t = g2["transition_list"][s].pop()
-        g2["transition_list"][s + 1].insert(0, t)
-        return g2
-    pairs = [(a, b) for a in range(1, n) for b in range(a + 1, n) if g2["players"][a] == g2["players"][b]
-             and g2["transition_list"][a] != g2["transition_list"][b]]
-    if pairs:
-        a, b = rng.choice(pairs)
-        g2["transition_list"][a], g2["transition_list"][b] = g2["transition_list"][b], g2["transition_list"][a]
-        return g2
-    return None
+    if not cand:
+        return None
+    s = rng.choice(cand)
+    t = g2["transition_list"][s].pop()
+    g2["transition_list"][s + 1].insert(0, t)
+    return g2
+
+
+_TERM = {}
+
+
+def terminates(g):
+    """input-side screen for generated siblings: both solves return within 3 s of CPU (a non-stopping game is not a C12 input)"""
+    key = game_key(g)
+    if key not in _TERM:
+        res = impl.run_cases([dict(op="solve", game=enc(g), prune=True, limit=3), dict(op="solve", game=enc(g), prune=False, limit=3)],
+                             tag="c12t")
+        _TERM[key] = all("timeout" not in r for r in res)
+    return _TERM[key]
 
 
 def pick_group(rng, tagged, k):
@@ -137,7 +147,7 @@ def pick_group(rng, tagged, k):
         wf = [i for i, (g, t) in enumerate(out) if t == "well-formed"]
         if wf:
             sib = sibling(rng, out[rng.choice(wf)][0])
-            if sib is not None and not c10.rewarded_player_cycle(sib):
+            if sib is not None and not c10.rewarded_player_cycle(sib) and terminates(sib):
                 out[rng.randrange(k)] = (sib, "well-formed")
     rng.shuffle(out)
     while True:
